@@ -71,13 +71,13 @@ def showExec : ExecResult → String
   | .aborted => "aborted"
   | .crash => "crash"
 
-/-- `execall <n> <combined> <skipCode> <scriptExit> <stdout> <stderr>` -/
+/-- `execall <n> <combined> <skipCode> <scriptExit> <salt> <stdout> <stderr>` -/
 def opExecAll (args : List String) : String :=
   match args with
-  | [n, c, sk, se, o, e] =>
-    match n.toNat?, bool01 c, sk.toInt?, se.toInt?, unhex o, unhex e with
-    | some n, some c, some sk, some se, some o, some e => showExec (executeAll n c sk se o e)
-    | _, _, _, _, _, _ => "bad-op"
+  | [n, c, sk, se, sa, o, e] =>
+    match n.toNat?, bool01 c, sk.toInt?, se.toInt?, unhex sa, unhex o, unhex e with
+    | some n, some c, some sk, some se, some sa, some o, some e => showExec (executeAll sa n c sk se o e)
+    | _, _, _, _, _, _, _ => "bad-op"
   | _ => "bad-op"
 
 /-- `compile <combined> <salt> <exports> <exprs>` -/
@@ -126,12 +126,13 @@ def opBash (args : List String) : String :=
     | some c, some k, some sk, some ts =>
       if mode == "p" then showExec (perProcess c k none sk ts 0 [])
       else if mode == "s" then
-        let salt : List UInt8 := [83]
+        -- the real salt is random; any salt that is not in the payloads predicts the same
+        let salt : List UInt8 := "MODELsaltMODELsalt00".toUTF8.toList
         let so := joinStream salt 0 (ts.map fun (o, e, code) => ((if c then o ++ e else o), code))
         let se := if c then [] else joinStream salt 0 (ts.map fun (_, e, code) => (e, code))
         showExec (orCrash (renderOutput k none some so) fun so =>
           orCrash (renderOutput k none some se) fun se =>
-          executeAll ts.length c sk 0 so se)
+          executeAll salt ts.length c sk 0 so se)
       else "bad-op"
     | _, _, _, _ => "bad-op"
   | _ => "bad-op"
